@@ -5,7 +5,7 @@ use crate::monitor::{run_history, RunOpts};
 
 /// Does the history still produce a violation with this signature for this property?
 pub fn still_fails(h: &History, prop: &str, sig: &str, known: &[String]) -> bool {
-    let opts = RunOpts { known: known.to_vec(), stop_at_first: true, drop_at: None, light: false };
+    let opts = RunOpts { known: known.to_vec(), stop_at_first: true, drop_at: None, light: false, prop: prop.to_string() };
     let (res, _) = run_history(h, opts);
     res.violations.iter().any(|v| v.sig == sig && v.props.iter().any(|p| *p == prop))
 }
